@@ -49,6 +49,7 @@ type FuncContract struct {
 	Inline       bool // force inlining at call sites instead of modular use
 	Terminate    bool
 	Captures     []*Clause // closures: facts about captured variables, checked where the closure is created
+	AlsoFor      []string  // properties for which only the explicitly tagged obligations of this function count
 	GlobalInvs   []*TypeDecl
 	Implementers bool // iface: every implementer in the loaded program is verified against this contract
 }
@@ -472,6 +473,10 @@ func (cs *ContractSet) parseLines(fname string, lines []struct {
 			}
 			if c := mkClause(rest, l.line, len(cur.Captures)+1); c != nil {
 				cur.Captures = append(cur.Captures, c)
+			}
+		case "alsofor":
+			if cur != nil {
+				cur.AlsoFor = append(cur.AlsoFor, strings.Fields(stripComment(rest))...)
 			}
 		case "implementers":
 			if cur != nil {
